@@ -63,6 +63,19 @@ def candidates(path, src):
     return out
 
 
+def stmt_candidates(path, src):
+    """whole-statement deletions: single-line expression statements (assignments, calls, `x?;`), not declarations"""
+    end = code_region(src)
+    out = []
+    pos = 0
+    for line in src[:end].splitlines(keepends=True):
+        st = strip_line(line).strip()
+        if st.endswith(";") and not re.match(r"(let|use|const|pub|type|static|return|break|continue|mod|impl|fn|#|//|\}|\))", st) and st.count("(") == st.count(")"):
+            out.append((path, pos, pos + len(line), "", st))
+        pos += len(line)
+    return out
+
+
 def classify(mut):
     path, a, b, rep, line = mut
     tmp = tempfile.mkdtemp(prefix="rtcpsweep")
@@ -110,7 +123,7 @@ def main():
             rel = os.path.relpath(os.path.join(root, f), facts.REPO)
             if files and not any(rel.endswith(x) for x in files.split(",")):
                 continue
-            cands += candidates(rel, open(os.path.join(root, f)).read())
+            cands += (stmt_candidates if "--stmt" in args else candidates)(rel, open(os.path.join(root, f)).read())
     random.Random(seed).shuffle(cands)
     cands = cands[:mx]
     print(len(cands), "mutants")
